@@ -1,3 +1,517 @@
-pub fn run(_cli: common::Cli) -> ! {
-    common::machinery("not built yet")
+//! C20: Agones discovery offers exactly the currently ready game servers.
+//!
+//! The real `AgonesDiscoveryAdapter` (kube client, watcher, backoff) runs against a minimal mock
+//! of the Kubernetes LIST/WATCH API on loopback. All histories of watch events up to a depth are
+//! enumerated; after every event a marker object is toggled and awaited as a barrier (events are
+//! applied in stream order), then the snapshot is compared with a reference map.
+use common::{Cli, Report, Violation, par_for};
+use passage_adapters::discovery::DiscoveryAdapter;
+use passage_adapters_agones::AgonesDiscoveryAdapter;
+use passage_adapters_agones::watcher_config::Config as WatchConfig;
+use serde::{Deserialize, Serialize};
+use serde_json::{Value, json};
+use std::collections::BTreeMap;
+use std::net::SocketAddr;
+use std::sync::atomic::{AtomicU64, Ordering};
+use std::sync::{Arc, Mutex};
+use std::time::{Duration, Instant};
+use tokio::io::{AsyncReadExt, AsyncWriteExt};
+use tokio::sync::mpsc;
+
+const MARKER: &str = "zz-marker";
+
+// ---------------------------------------------------------------------------------------
+// mock Kubernetes API
+// ---------------------------------------------------------------------------------------
+
+enum WatchMsg {
+    Line(String),
+    Close,
+}
+
+#[derive(Default)]
+struct K8s {
+    objects: BTreeMap<String, Value>,
+    rv: u64,
+    watchers: Vec<mpsc::UnboundedSender<WatchMsg>>,
+    lists: u64,
+    watches: u64,
+}
+
+impl K8s {
+    fn broadcast(&mut self, line: String) {
+        self.watchers.retain(|w| w.send(WatchMsg::Line(line.clone())).is_ok());
+    }
+    fn apply(&mut self, name: &str, mut obj: Value) {
+        self.rv += 1;
+        obj["metadata"]["resourceVersion"] = json!(self.rv.to_string());
+        let kind = if self.objects.contains_key(name) { "MODIFIED" } else { "ADDED" };
+        self.objects.insert(name.to_string(), obj.clone());
+        self.broadcast(json!({"type": kind, "object": obj}).to_string());
+    }
+    fn delete(&mut self, name: &str) {
+        if let Some(mut obj) = self.objects.remove(name) {
+            self.rv += 1;
+            obj["metadata"]["resourceVersion"] = json!(self.rv.to_string());
+            self.broadcast(json!({"type": "DELETED", "object": obj}).to_string());
+        }
+    }
+    fn bookmark(&mut self) {
+        self.rv += 1;
+        let line = json!({"type": "BOOKMARK", "object": {"apiVersion": "agones.dev/v1", "kind": "GameServer", "metadata": {"resourceVersion": self.rv.to_string()}}}).to_string();
+        self.broadcast(line);
+    }
+    fn close_watches(&mut self) {
+        for w in self.watchers.drain(..) {
+            let _ = w.send(WatchMsg::Close);
+        }
+    }
+    fn gone(&mut self) {
+        let line = json!({"type": "ERROR", "object": {"kind": "Status", "apiVersion": "v1", "metadata": {}, "status": "Failure", "message": "too old resource version", "reason": "Expired", "code": 410}}).to_string();
+        self.broadcast(line);
+        self.close_watches();
+    }
+}
+
+async fn serve(state: Arc<Mutex<K8s>>) -> SocketAddr {
+    let listener = tokio::net::TcpListener::bind("127.0.0.1:0").await.expect("bind");
+    let addr = listener.local_addr().unwrap();
+    tokio::spawn(async move {
+        loop {
+            let Ok((mut sock, _)) = listener.accept().await else { break };
+            let _ = sock.set_nodelay(true);
+            let state = state.clone();
+            tokio::spawn(async move {
+                let mut buf: Vec<u8> = vec![];
+                loop {
+                    let end = loop {
+                        if let Some(p) = buf.windows(4).position(|w| w == b"\r\n\r\n") {
+                            break Some(p + 4);
+                        }
+                        let mut tmp = [0u8; 4096];
+                        match sock.read(&mut tmp).await {
+                            Ok(0) | Err(_) => break None,
+                            Ok(n) => buf.extend_from_slice(&tmp[..n]),
+                        }
+                    };
+                    let Some(end) = end else { return };
+                    let head = String::from_utf8_lossy(&buf[..end]).to_string();
+                    buf.drain(..end);
+                    let target = head.split(' ').nth(1).unwrap_or("").to_string();
+                    if !target.starts_with("/apis/agones.dev/v1/") || !target.contains("gameservers") {
+                        let _ = sock.write_all(b"HTTP/1.1 404 Not Found\r\ncontent-length: 0\r\n\r\n").await;
+                        continue;
+                    }
+                    if target.contains("watch=true") || target.contains("watch=1") {
+                        let (tx, mut rx) = mpsc::unbounded_channel();
+                        {
+                            let mut st = state.lock().unwrap();
+                            st.watches += 1;
+                            st.watchers.push(tx);
+                        }
+                        if sock.write_all(b"HTTP/1.1 200 OK\r\ncontent-type: application/json\r\ntransfer-encoding: chunked\r\n\r\n").await.is_err() {
+                            return;
+                        }
+                        loop {
+                            match rx.recv().await {
+                                Some(WatchMsg::Line(l)) => {
+                                    let chunk = format!("{:x}\r\n{l}\n\r\n", l.len() + 1);
+                                    if sock.write_all(chunk.as_bytes()).await.is_err() {
+                                        return;
+                                    }
+                                }
+                                Some(WatchMsg::Close) | None => {
+                                    let _ = sock.write_all(b"0\r\n\r\n").await;
+                                    break;
+                                }
+                            }
+                        }
+                        // the connection stays usable for the next request
+                        continue;
+                    }
+                    let body = {
+                        let mut st = state.lock().unwrap();
+                        st.lists += 1;
+                        json!({"apiVersion": "agones.dev/v1", "kind": "GameServerList", "metadata": {"resourceVersion": st.rv.to_string()}, "items": st.objects.values().cloned().collect::<Vec<_>>()}).to_string()
+                    };
+                    let resp = format!("HTTP/1.1 200 OK\r\ncontent-type: application/json\r\ncontent-length: {}\r\n\r\n{body}", body.len());
+                    if sock.write_all(resp.as_bytes()).await.is_err() {
+                        return;
+                    }
+                }
+            });
+        }
+    });
+    addr
+}
+
+// ---------------------------------------------------------------------------------------
+// game server shapes and the reference model
+// ---------------------------------------------------------------------------------------
+
+fn game_server(name: &str, shape: &str) -> Value {
+    let (state, address, ports): (&str, &str, Value) = match shape {
+        "ready" => ("Ready", "10.0.0.1", json!([{"name": "default", "port": 7001}])),
+        "allocated" => ("Allocated", "10.0.0.1", json!([{"name": "default", "port": 7001}])),
+        "shutdown" => ("Shutdown", "10.0.0.1", json!([{"name": "default", "port": 7001}])),
+        "scheduled" => ("Scheduled", "", json!([])),
+        "ready-moved" => ("Ready", "2001:db8::20", json!([{"name": "game", "port": 7100}, {"name": "query", "port": 7101}])),
+        "ready-no-ports" => ("Ready", "10.0.0.1", json!([])),
+        "ready-bad-address" => ("Ready", "node-7.internal", json!([{"name": "default", "port": 7001}])),
+        other => common::machinery(&format!("shape {other}")),
+    };
+    json!({
+        "apiVersion": "agones.dev/v1", "kind": "GameServer",
+        "metadata": {"name": name, "namespace": "default", "uid": format!("uid-{name}"), "labels": {"agones.dev/fleet": "lobby", "mode": name}, "annotations": {"note": format!("anno-{shape}")}},
+        "spec": {"container": "mc"},
+        "status": {"address": address, "ports": ports, "state": state,
+            "counters": {"players": {"count": 3, "capacity": 10}, "rooms": {"capacity": 4}},
+            "lists": {"tags": {"capacity": 5, "values": ["x", "y"]}, "empty": {"values": []}}},
+    })
+}
+
+/// what discover() must offer for an object, or None if it must not be offered
+fn reference_target(obj: &Value) -> Option<(String, SocketAddr, BTreeMap<String, String>)> {
+    let st = &obj["status"];
+    let state = st["state"].as_str()?;
+    if state != "Ready" && state != "Allocated" {
+        return None;
+    }
+    let ip: std::net::IpAddr = st["address"].as_str()?.parse().ok()?;
+    let port = st["ports"].as_array()?.first()?["port"].as_u64()? as u16;
+    let mut meta = BTreeMap::new();
+    meta.insert("state".to_string(), state.to_string());
+    if let Some(c) = st["counters"].as_object() {
+        for (k, v) in c {
+            meta.insert(k.clone(), v["count"].as_u64().unwrap_or(0).to_string());
+        }
+    }
+    if let Some(l) = st["lists"].as_object() {
+        for (k, v) in l {
+            let vals: Vec<&str> = v["values"].as_array().map(|a| a.iter().filter_map(Value::as_str).collect()).unwrap_or_default();
+            meta.insert(k.clone(), vals.join(","));
+        }
+    }
+    for sect in ["labels", "annotations"] {
+        if let Some(m) = obj["metadata"][sect].as_object() {
+            for (k, v) in m {
+                meta.insert(k.clone(), v.as_str().unwrap_or("").to_string());
+            }
+        }
+    }
+    Some((obj["metadata"]["name"].as_str()?.to_string(), SocketAddr::new(ip, port), meta))
+}
+
+#[derive(Clone, Debug, Serialize, Deserialize, PartialEq)]
+pub enum Ev {
+    Apply { name: String, shape: String },
+    Delete { name: String },
+    Bookmark,
+    CloseWatch,
+    Gone,
+    /// 410 Gone, and while the watch is down the object disappears (nobody is told)
+    GoneAndDelete { name: String },
+    /// 410 Gone, and while the watch is down the object changes
+    GoneAndApply { name: String, shape: String },
+}
+
+#[derive(Clone, Debug, Serialize, Deserialize, PartialEq)]
+pub struct Spec {
+    /// initial LIST content: (name, shape)
+    initial: Vec<(String, String)>,
+    history: Vec<Ev>,
+}
+
+static KUBECONFIG_LOCK: Mutex<()> = Mutex::new(());
+
+async fn wait_for<F: Fn(&[passage_adapters::Target]) -> bool>(adapter: &AgonesDiscoveryAdapter, pred: F, max: Duration) -> Option<Vec<passage_adapters::Target>> {
+    let t0 = Instant::now();
+    loop {
+        let snap = adapter.discover().await.unwrap_or_default();
+        if pred(&snap) {
+            return Some(snap);
+        }
+        if t0.elapsed() > max {
+            return None;
+        }
+        tokio::time::sleep(Duration::from_millis(2)).await;
+    }
+}
+
+fn run_history(spec: &Spec, counters: &(AtomicU64, AtomicU64)) -> Vec<(String, String)> {
+    let rt = tokio::runtime::Builder::new_current_thread().enable_all().build().expect("rt");
+    rt.block_on(async {
+        let mut v: Vec<(String, String)> = vec![];
+        let state = Arc::new(Mutex::new(K8s::default()));
+        {
+            let mut st = state.lock().unwrap();
+            for (n, s) in &spec.initial {
+                st.apply(n, game_server(n, s));
+            }
+        }
+        let addr = serve(state.clone()).await;
+        // the kube client reads KUBECONFIG when it is created: serialise that step across threads
+        let adapter = {
+            let _g = KUBECONFIG_LOCK.lock().unwrap();
+            let path = format!("/verif/target/kubeconfig-{}-{}.yaml", std::process::id(), addr.port());
+            let cfg = format!("apiVersion: v1\nkind: Config\nclusters:\n- name: mock\n  cluster:\n    server: http://{addr}\ncontexts:\n- name: mock\n  context:\n    cluster: mock\n    user: mock\n    namespace: default\ncurrent-context: mock\nusers:\n- name: mock\n  user: {{}}\n");
+            std::fs::write(&path, cfg).expect("kubeconfig");
+            unsafe { std::env::set_var("KUBECONFIG", &path) };
+            let a = AgonesDiscoveryAdapter::new(None, WatchConfig::default()).await;
+            let _ = std::fs::remove_file(&path);
+            match a {
+                Ok(a) => a,
+                Err(e) => common::machinery(&format!("cannot create the Agones adapter against the mock: {e}")),
+            }
+        };
+        // barrier helper: toggle the marker and wait until the snapshot shows it
+        let mut marker_ready = false;
+        let mut barrier = |state: &Arc<Mutex<K8s>>| {
+            marker_ready = !marker_ready;
+            let shape = if marker_ready { "ready" } else { "shutdown" };
+            state.lock().unwrap().apply(MARKER, game_server(MARKER, shape));
+            marker_ready
+        };
+        let check = |snap: &[passage_adapters::Target], truth: &BTreeMap<String, Value>, step: usize, ev: &str, v: &mut Vec<(String, String)>| {
+            let mut offered: BTreeMap<String, Vec<&passage_adapters::Target>> = BTreeMap::new();
+            for t in snap.iter().filter(|t| t.identifier != MARKER) {
+                offered.entry(t.identifier.clone()).or_default().push(t);
+            }
+            for (name, obj) in truth.iter().filter(|(n, _)| n.as_str() != MARKER) {
+                let want = reference_target(obj);
+                let got = offered.remove(name);
+                match (want, got) {
+                    (None, None) => {}
+                    (Some(_), None) => v.push(("ready-server-not-offered".into(), format!("after step {step} ({ev}): '{name}' is {} but is not offered", obj["status"]["state"]))),
+                    (None, Some(g)) => {
+                        let state = obj["status"]["state"].as_str().unwrap_or("?");
+                        let key = if state == "Ready" || state == "Allocated" { "unconvertible-update-keeps-stale" } else { "not-ready-server-offered" };
+                        v.push((key.into(), format!("after step {step} ({ev}): '{name}' was last observed as {state} (ports {}, address {}) but is still offered at {}", obj["status"]["ports"], obj["status"]["address"], g[0].address)));
+                    }
+                    (Some((_, addr, meta)), Some(g)) => {
+                        if g.len() != 1 {
+                            v.push(("server-offered-twice".into(), format!("after step {step} ({ev}): '{name}' offered {} times", g.len())));
+                        }
+                        if g[0].address != addr {
+                            v.push(("stale-address".into(), format!("after step {step} ({ev}): '{name}' offered at {} but its current address is {addr}", g[0].address)));
+                        }
+                        for (k, val) in &meta {
+                            if g[0].meta.get(k) != Some(val) {
+                                v.push(("metadata-mismatch".into(), format!("after step {step} ({ev}): '{name}' metadata {k:?} is {:?}, expected {val:?}", g[0].meta.get(k))));
+                                break;
+                            }
+                        }
+                    }
+                }
+            }
+            for (name, g) in offered {
+                v.push(("deleted-server-still-offered".into(), format!("after step {step} ({ev}): '{name}' no longer exists but is still offered at {}", g[0].address)));
+            }
+        };
+        // initial list
+        let want = barrier(&state);
+        let Some(snap) = wait_for(&adapter, |s| s.iter().any(|t| t.identifier == MARKER) == want, Duration::from_secs(5)).await else {
+            v.push(("watch-not-applied".into(), "the initial list / first watch event never became visible".into()));
+            return v;
+        };
+        counters.0.fetch_add(1, Ordering::Relaxed);
+        check(&snap, &state.lock().unwrap().objects.clone(), 0, "initial list", &mut v);
+        for (i, ev) in spec.history.iter().enumerate() {
+            let label = format!("{ev:?}");
+            {
+                let mut st = state.lock().unwrap();
+                match ev {
+                    Ev::Apply { name, shape } => st.apply(name, game_server(name, shape)),
+                    Ev::Delete { name } => st.delete(name),
+                    Ev::Bookmark => st.bookmark(),
+                    Ev::CloseWatch => st.close_watches(),
+                    Ev::Gone => st.gone(),
+                    Ev::GoneAndDelete { name } => {
+                        st.gone();
+                        st.delete(name);
+                    }
+                    Ev::GoneAndApply { name, shape } => {
+                        st.gone();
+                        st.apply(name, game_server(name, shape));
+                    }
+                }
+            }
+            if matches!(ev, Ev::CloseWatch | Ev::Gone | Ev::GoneAndDelete { .. } | Ev::GoneAndApply { .. }) {
+                // wait until the adapter has opened a new watch before the marker is toggled
+                let before = state.lock().unwrap().watches;
+                let t0 = Instant::now();
+                loop {
+                    {
+                        let st = state.lock().unwrap();
+                        if st.watches > before && !st.watchers.is_empty() {
+                            break;
+                        }
+                    }
+                    if t0.elapsed() > Duration::from_secs(8) {
+                        v.push(("watch-not-reestablished".into(), format!("after step {} ({label}) no new watch was opened within 8 s", i + 1)));
+                        return v;
+                    }
+                    tokio::time::sleep(Duration::from_millis(5)).await;
+                }
+            }
+            let want = barrier(&state);
+            let Some(snap) = wait_for(&adapter, |s| s.iter().any(|t| t.identifier == MARKER) == want, Duration::from_secs(8)).await else {
+                v.push(("watch-not-applied".into(), format!("after step {} ({label}) the marker never became visible", i + 1)));
+                return v;
+            };
+            counters.0.fetch_add(1, Ordering::Relaxed);
+            let truth = state.lock().unwrap().objects.clone();
+            let n0 = v.len();
+            check(&snap, &truth, i + 1, &label, &mut v);
+            if v.len() > n0 {
+                // the first discrepancy of a history is reported; later ones would only repeat it
+                break;
+            }
+        }
+        counters.1.fetch_add(state.lock().unwrap().lists, Ordering::Relaxed);
+        v
+    })
+}
+
+fn alphabet() -> Vec<Ev> {
+    let mut v = vec![];
+    for name in ["a", "b"] {
+        for shape in ["ready", "allocated", "shutdown", "ready-moved", "ready-no-ports", "ready-bad-address"] {
+            v.push(Ev::Apply { name: name.into(), shape: shape.into() });
+        }
+        v.push(Ev::Delete { name: name.into() });
+    }
+    v.push(Ev::Bookmark);
+    v.push(Ev::CloseWatch);
+    v.push(Ev::Gone);
+    v.push(Ev::GoneAndDelete { name: "a".into() });
+    v.push(Ev::GoneAndApply { name: "a".into(), shape: "shutdown".into() });
+    v.push(Ev::GoneAndApply { name: "b".into(), shape: "ready-moved".into() });
+    v
+}
+
+fn enabled(present: &std::collections::BTreeSet<String>, ev: &Ev) -> bool {
+    match ev {
+        Ev::Delete { name } | Ev::GoneAndDelete { name } => present.contains(name),
+        _ => true,
+    }
+}
+
+fn histories(initial: &[(String, String)], depth: usize, allow_gone_depth: usize) -> Vec<Vec<Ev>> {
+    let alpha = alphabet();
+    let mut out = vec![];
+    fn rec(alpha: &[Ev], present: std::collections::BTreeSet<String>, cur: &mut Vec<Ev>, depth: usize, gone_ok: usize, out: &mut Vec<Vec<Ev>>) {
+        if !cur.is_empty() {
+            out.push(cur.clone());
+        }
+        if cur.len() == depth {
+            return;
+        }
+        for ev in alpha {
+            if !enabled(&present, ev) {
+                continue;
+            }
+            let is_gone = |e: &Ev| matches!(e, Ev::Gone | Ev::GoneAndDelete { .. } | Ev::GoneAndApply { .. });
+            if is_gone(ev) && (cur.iter().any(is_gone) || depth > gone_ok) {
+                continue;
+            }
+            let mut p = present.clone();
+            match ev {
+                Ev::Apply { name, .. } => {
+                    p.insert(name.clone());
+                }
+                Ev::Delete { name } | Ev::GoneAndDelete { name } => {
+                    p.remove(name);
+                }
+                Ev::GoneAndApply { name, .. } => {
+                    p.insert(name.clone());
+                }
+                _ => {}
+            }
+            cur.push(ev.clone());
+            rec(alpha, p, cur, depth, gone_ok, out);
+            cur.pop();
+        }
+    }
+    let present = initial.iter().map(|(n, _)| n.clone()).collect();
+    rec(&alpha, present, &mut vec![], depth, allow_gone_depth, &mut out);
+    // only maximal histories need to run (every prefix is checked on the way)
+    let maximal: Vec<Vec<Ev>> = out.iter().filter(|h| h.len() == depth || !out.iter().any(|o| o.len() > h.len() && o.starts_with(h))).cloned().collect();
+    maximal
+}
+
+pub fn run(cli: Cli) -> ! {
+    let rep = Report::new("C20", cli.tier, "model_checking");
+    let counters = (AtomicU64::new(0), AtomicU64::new(0));
+    if let Some(case) = cli.replay.clone() {
+        let spec: Spec = serde_json::from_value(case["spec"].clone()).unwrap_or_else(|e| common::machinery(&format!("bad replay: {e}")));
+        println!("spec: {}", serde_json::to_string_pretty(&spec).unwrap());
+        for (k, t) in run_history(&spec, &counters) {
+            println!("{k}: {t}");
+            rep.violation(Violation { key: k, text: t, replay: case.clone(), weight: 0 });
+        }
+        rep.set("states", json!(1));
+        rep.set("transitions", json!(spec.history.len().max(1)));
+        rep.set("traces_validated_against_impl", json!(1));
+        rep.finish();
+    }
+    let thorough = cli.tier.thorough();
+    let initials: Vec<Vec<(String, String)>> = vec![vec![], vec![("a".into(), "ready".into())], vec![("a".into(), "ready".into()), ("b".into(), "shutdown".into())]];
+    let mut specs: Vec<Spec> = vec![];
+    for init in &initials {
+        let (depth, gone_depth) = if thorough { (3, 3) } else { (2, 0) };
+        for h in histories(init, depth, gone_depth) {
+            specs.push(Spec { initial: init.clone(), history: h });
+        }
+    }
+    if thorough {
+        // depth 4 from the richest initial state, without 410 (each costs the watcher's error backoff)
+        for h in histories(&initials[2], 4, 0) {
+            specs.push(Spec { initial: initials[2].clone(), history: h });
+        }
+    } else {
+        // quick: selected depth-3 histories around deletion, re-list and unconvertible updates
+        let a = |s: &str| Ev::Apply { name: "a".into(), shape: s.into() };
+        let b = |s: &str| Ev::Apply { name: "b".into(), shape: s.into() };
+        let del = |n: &str| Ev::Delete { name: n.into() };
+        for h in [
+            vec![a("ready"), del("a"), a("ready")],
+            vec![a("ready"), Ev::CloseWatch, del("a")],
+            vec![a("ready"), b("allocated"), Ev::Gone],
+            vec![del("a"), Ev::Gone, b("ready")],
+            vec![b("ready"), Ev::GoneAndDelete { name: "a".into() }, a("ready")],
+            vec![a("allocated"), Ev::GoneAndApply { name: "a".into(), shape: "shutdown".into() }],
+            vec![Ev::GoneAndApply { name: "b".into(), shape: "ready-moved".into() }, del("b")],
+            vec![a("ready-moved"), a("ready-no-ports"), a("ready")],
+            vec![a("allocated"), a("shutdown"), a("ready-moved")],
+            vec![b("ready"), Ev::Bookmark, Ev::CloseWatch],
+        ] {
+            specs.push(Spec { initial: initials[1].clone(), history: h });
+        }
+    }
+    let rot = common::seed() as usize % specs.len();
+    specs.rotate_left(rot);
+    let events = AtomicU64::new(0);
+    par_for(specs.len(), |i| {
+        let s = &specs[i];
+        events.fetch_add(s.history.len() as u64, Ordering::Relaxed);
+        for (k, t) in run_history(s, &counters) {
+            rep.violation(Violation { key: k, text: format!("{t}; history {}", serde_json::to_string(s).unwrap()), replay: json!({"spec": s}), weight: s.history.len() as u64 * 100 + s.initial.len() as u64 });
+        }
+    });
+    rep.require("barriers reached", counters.0.load(Ordering::Relaxed), 50);
+    rep.set("states", json!(counters.0.load(Ordering::Relaxed)));
+    rep.set("transitions", json!(events.load(Ordering::Relaxed)));
+    rep.set("traces_validated_against_impl", json!(specs.len()));
+    rep.set("evaluations", json!(specs.len()));
+    rep.set("distinct_nontrivial", json!(specs.len()));
+    rep.set("histories", json!(specs.len()));
+    rep.set("list_requests_served", json!(counters.1.load(Ordering::Relaxed)));
+    rep.set("exhaustive", json!(true));
+    rep.set("rule", json!("all maximal histories up to the depth over 20 events (ADDED/MODIFIED of two game servers in 6 shapes, DELETED, BOOKMARK, watch closed cleanly, 410 Gone followed by a re-list, 410 Gone with an object deleted / changed while the watch is down), pruned to events enabled in the mock's current truth, from 3 initial LIST contents; after every event a marker object is toggled and awaited (barrier) and the snapshot compared with the reference map. quick: depth 2 without 410 plus 10 selected histories with deletions, re-lists and changes during a watch outage; thorough: depth 3 with one 410, depth 4 without."));
+    rep.sample(json!({"spec": specs[0]}));
+    rep.sample(json!({"spec": Spec { initial: vec![("a".into(), "ready".into())], history: vec![Ev::Delete { name: "a".into() }] }, "expect": "'a' is no longer offered"}));
+    rep.assume("the Kubernetes API is a hand-written HTTP/1.1 mock (LIST + chunked WATCH); the kube client, watcher and backoff run unmodified; OS timing only enters through 5-8 s deadlines on barriers");
+    rep.assume("events are applied in stream order, so the visibility of the toggled marker implies that every earlier event has been applied");
+    rep.finish()
 }
